@@ -232,9 +232,10 @@ PROPS["C13"] = {
              "Authenticated payloads: TLV length lies, truncated TLV header, SMP MPI count 2^32-1, question without NUL, extra-key TLV < 4 bytes, MPI longer than its TLV, thousands of empty TLVs, 65535-byte unknown TLV, lone NUL, SMP with p everywhere. "
              "Faults: two scenarios (AKE + messages; rotations with an overtaking message, SMP, extra key, End) x both versions x each party x every read index x {error, short read, EOF}. Non-trivial: input recognised as an OTR message / parser got past its first field / the failing read was reached."),
     "assumptions": COMMON_ASSUME + ["the watchdog (15 s for calls that normally take micro- to milliseconds) is the only wall-clock oracle"],
-    "exhaustive_checks": ["C13strayake", "C13faults", "C13oddkeys"],
+    "exhaustive_checks": ["C13strayake", "C13truncations", "C13truncrecv", "C13faults", "C13oddkeys"],
     "tests": [
         {"name": "TestProp_C13_StrayAKE", "kind": "plain", "crumb_is_violation": True, "ulimit_v": 8388608, "quick": {"shards": 8, "timeout": 600}, "thorough": {"shards": 8, "timeout": 3000}},
+        {"name": "TestProp_C13_Truncations", "kind": "plain", "crumb_is_violation": True, "ulimit_v": 8388608, "quick": {"shards": 8, "timeout": 600}, "thorough": {"shards": 8, "timeout": 3000}},
         {"name": "TestProp_C13_Parsers", "crumb_is_violation": True, "ulimit_v": 8388608, "quick": {"shards": 4, "checks": 1500, "timeout": 500}, "thorough": {"shards": 8, "checks": 40000, "timeout": 3000}},
         {"name": "TestProp_C13_Receive", "crumb_is_violation": True, "ulimit_v": 8388608, "quick": {"shards": 6, "checks": 150, "timeout": 500}, "thorough": {"shards": 16, "checks": 3000, "timeout": 3000}},
         {"name": "TestProp_C13_Auth", "crumb_is_violation": True, "ulimit_v": 8388608, "quick": {"shards": 3, "checks": 100, "timeout": 500}, "thorough": {"shards": 8, "checks": 2500, "timeout": 3000}},
